@@ -39,6 +39,7 @@ def gen_conf(rng, i):
             p = {}
             idx = rng.choice([c * 10 + e + 1, rng.randrange(1, 2 ** 20), 2 ** 29 - 1 - (c * 3 + e)])
             p['index'] = idx
+            indexless = rng.random() < 0.2
             nv6 = v6 if rng.random() < 0.8 else not v6
             if base_nets is not None and rng.random() < 0.35:
                 mynet, peernet = base_nets            # same networks as the previous entry: only a port differs
@@ -64,6 +65,10 @@ def gen_conf(rng, i):
                 p['encr'] = ['aes256']
             if mynet:
                 p['my_subnet'], p['peer_subnet'] = mynet, peernet
+            if indexless:
+                # no explicit index: the daemon picks one; whatever it picks, every outbound policy carries an index of its own
+                del p['index']
+                idx = None
             prot.append(p)
             expect.append({'conn': c, 'my': my, 'peer': peer, 'index': idx, 'mynet': ipaddress.ip_network(mynet or my), 'peernet': ipaddress.ip_network(peernet or peer),
                            'ip_proto': PROTO_NUM[ipp], 'my_port': my_port, 'peer_port': peer_port, 'mode': 0 if mode == 'transport' else 1, 'ipsec': 50 if ipsec == 'esp' else 51})
@@ -81,7 +86,7 @@ def expected_spd(expect):
     for e in expect:
         fam = socket.AF_INET if ipaddress.ip_address(e['my']).version == 4 else socket.AF_INET6
         o = (selkey(e['mynet'], e['peernet'], e['my_port'], e['peer_port'], e['ip_proto']), 1)
-        out[o] = {'index': (e['index'] << 3) | 1, 'tmpl': (e['peer'], e['my'], e['ipsec'], e['mode'], fam)}
+        out[o] = {'index': ((e['index'] << 3) | 1) if e['index'] is not None else None, 'tmpl': (e['peer'], e['my'], e['ipsec'], e['mode'], fam)}
         for d in (0, 2):
             k = (selkey(e['peernet'], e['mynet'], e['peer_port'], e['my_port'], e['ip_proto']), d)
             out[k] = {'index': None, 'tmpl': (e['my'], e['peer'], e['ipsec'], e['mode'], fam)}
@@ -103,6 +108,11 @@ def check_spd(ck, kernel, expect, case, when):
         ck.violation(f"installed-policies-differ-from-the-configuration:{'missing' if missing and not extra else 'extra' if extra and not missing else 'other-selectors'}:dir{dirs}:{when}",
                      {'missing': missing[:4], 'extra': extra[:4], 'entries': len(expect)}, case)
         return
+    outb = [g_['index'] for (sk_, d_), g_ in got.items() if d_ == 1]
+    if any(e_['index'] is None for e_ in expect):
+        ck.count('spd.configurations_with_entries_without_an_explicit_index')
+    if len(set(outb)) != len(outb):
+        ck.violation(f'two-outbound-policies-carry-the-same-index:{when}', {'indices': sorted(outb), 'entries': len(expect)}, case)
     for k, w in want.items():
         g = got[k]
         ck.count('spd.policies_checked')
@@ -580,6 +590,7 @@ def run(ck):
 
 def verdict(ck):
     c = ck.counters
+    ck.floor('configurations with entries that leave the index to the daemon', c['spd.configurations_with_entries_without_an_explicit_index'], 60)
     ck.floor('answers of a responder that does not narrow an any-protocol entry with a port', c['lenient_responder.answers'], 40)
     ck.floor('lifetimes of SAs installed by a rekey compared with the entry', c['acquire.rekeyed_lifetimes_checked'], 20)
     ck.floor('configurations loaded', c['construction.configs'], 250)
